@@ -42,4 +42,15 @@ PROPS = {
             {"pkg": "./c05", "harness": "Harness_preamble", "setup": "Setup", "params": {"quick": {"n": 2, "v": 1, "c": 1}, "thorough": {"n": 3, "v": 2, "c": 1}}, "wall": {"thorough": "40m"}},
         ],
     },
+    "C06": {
+        "technique": "bounded symbolic execution of printer.Pr_str and reader/scanner: round-trip assertion on symbolic data values (strings over a 15-symbol ASCII alphabet plus the raw-string quote and the keyword marker, symbolic map iteration order) and on symbolic source texts; SMT (z3) decides assertions",
+        "outside": "floats; symbolic integer magnitudes (integers range over a boundary set: decimal conversion of a symbolic 64-bit integer is a divide-by-constant kernel); invalid UTF-8 in values; Go constructor syntax; values deeper/wider than the bound; NUL inside strings",
+        "runs": [
+            {"pkg": "./c06", "harness": "Harness_value", "maporder": True,
+             "params": {"quick": {"depth": 1, "width": 1, "strlen": 2}, "thorough": {"depth": 1, "width": 2, "strlen": 3}}, "wall": {"thorough": "40m"}},
+            {"pkg": "./c06", "harness": "Harness_text", "params": {"quick": {"n": 3}, "thorough": {"n": 4}}, "wall": {"thorough": "40m"}},
+            {"pkg": "./c06", "harness": "Harness_text_quoted", "params": {"quick": {"n": 3, "quoted": 1}, "thorough": {"n": 4, "quoted": 1}}, "wall": {"thorough": "40m"}},
+            {"pkg": "./c06", "harness": "Harness_text_raw", "params": {"quick": {"n": 3, "quoted": 2}, "thorough": {"n": 4, "quoted": 2}}, "wall": {"thorough": "40m"}},
+        ],
+    },
 }
